@@ -331,6 +331,7 @@ template<class IT>
 typename small_vector<T,S>::iterator small_vector<T, S>::append(IT b, IT e)
 {
   const auto n(static_cast<size_type>(std::distance(b, e)));
+  const auto old_size(size());
 
   reserve(size() + n);
 
@@ -341,7 +342,7 @@ typename small_vector<T,S>::iterator small_vector<T, S>::append(IT b, IT e)
 
   size_ += n;
 
-  return end();
+  return begin() + old_size;  // first appended element (`end()` if none)
 }
 
 template<class T, std::size_t S>
